@@ -25,10 +25,12 @@ LEVEL_TEXT = ("Partial. Unbounded proof: for every element tree (any depth and w
               "and end to end, without any hypothesis about the model: every element tree whose element and attribute names "
               "are XML names as they stand - any shape and depth, any texts, any attributes in any namespace and of any value "
               "type (the formatted value of C27, cleaned; repeated keys overwrite), any namespace declarations around the "
-              "root, either pool encoding, no resource map - is parsed from its bytes to exactly that tree. Not proved: "
-              "attribute names taken from the resource map and the system attribute table, names that need repair "
-              "(non-ASCII, leading digit, embedded prefix), comments, styled pools - these are modelled and compared with "
-              "the code, and with the document description, on every run.")
+              "root, either pool encoding - is parsed from its bytes to exactly that tree, without a resource map and with "
+              "one in front (as aapt writes manifests: the name of an attribute the map covers is then the system attribute "
+              "name of its resource id when the table knows it, else the name in the pool). Not proved: names that need "
+              "repair (non-ASCII, leading digit, embedded prefix - the repair function has its own theorems), comments, "
+              "styled pools - these are modelled and compared with the code, and with the document description, on every "
+              "run.")
 LEVEL_NOTE = ("Trusted: Coq kernel; coq/Axml/PoolModel.v (StringBlock; malformed UTF-8 outside the model), "
               "coq/Axml/AxmlModel.v (AXMLParser/AXMLPrinter; names restricted to ASCII because of str.isalpha, comments and a "
               "second root outside the model, the namespace map as 'last declaration of a prefix wins', lxml's Element as a "
